@@ -48,6 +48,9 @@ def gen_project(g, tier, style='general'):
                 mname = f'{pnames[0]}_mod'
                 mod['name'] = mname
                 mod['iface'] = None
+            if style == 'groups':
+                # several kernels per module, no generic interfaces, no calls inside the module
+                mod['iface'] = None
             unit_list.append(['mod', mname])
         else:
             mname, mod = None, None
@@ -55,7 +58,7 @@ def gen_project(g, tier, style='general'):
             unit_list.append(['free', pnames[0]])
         for pname in pnames:
             P = {'mod': mname}
-            cands = earlier_procs + ([x for x in mod['procs']] if mod else [])
+            cands = earlier_procs + ([x for x in mod['procs']] if mod and style != 'groups' else [])
             ncalls = g.randint('ncalls', 0, min(3, len(cands)))
             P['calls'] = []
             for q in g.sample('callees', cands, ncalls):
@@ -99,7 +102,7 @@ def gen_project(g, tier, style='general'):
             order.append(pname)
             if mod:
                 mod['procs'].append(pname)
-        if mod and len(mod['procs']) >= 2 and style != 'ifs' and g.flip('mutual', 1, 6):
+        if mod and len(mod['procs']) >= 2 and style == 'general' and g.flip('mutual', 1, 6):
             # a mutual-recursion cycle inside one module; both procedures are RECURSIVE, written with
             # different (legal) prefix spellings
             pa, pb = mod['procs'][0], mod['procs'][1]
@@ -118,7 +121,7 @@ def gen_project(g, tier, style='general'):
                                  'uses_param': [], 'external': None, 'calls_iface': [], 'iproc': True,
                                  'ext_mod': None}
             mods.append(mod)
-    if style != 'ifs' and mods and g.flip('shadowimport', 1, 6):
+    if style == 'general' and mods and g.flip('shadowimport', 1, 6):
         # the same symbol name imported at two nesting levels from different modules
         cands = [m for m in mods if m['procs']]
         M = g.pick('shadowmod', cands)
@@ -139,7 +142,7 @@ def gen_project(g, tier, style='general'):
     dirs = ['', 'a/', 'b/c/']
     rest = list(unit_list)
     while rest:
-        k = g.weighted('perfile', [(1, 5), (2, 2), (3, 1)]) if style != 'ifs' else 1
+        k = g.weighted('perfile', [(1, 5), (2, 2), (3, 1)]) if style == 'general' else 1
         chunk, rest = rest[:k], rest[k:]
         stem = chunk[0][1]
         files.append({'path': g.pick('dir', dirs) + spell(stem, g.choose('fspell', 3)) +
@@ -147,7 +150,7 @@ def gen_project(g, tier, style='general'):
     return {'mods': mods, 'procs': procs, 'order': order, 'files': files, 'externals': externals}
 
 
-def gen_config(g, proj, tier):
+def gen_config(g, proj, tier, patterns=False):
     names = list(proj['order'])
     roots = [p for p in names if not any(p == c['to'] for q in names for c in proj['procs'][q]['calls'])]
     nseeds = g.randint('nseeds', 1, min(2, len(names)))
@@ -161,7 +164,14 @@ def gen_config(g, proj, tier):
         default['disable'] = [qualify(proj, g.pick('gdis', cand), g.flip('gdisq', 1, 3))]
     routines = {}
     for s in seeds:
-        routines[qualify(proj, s, g.flip('seedq', 1, 4))] = {'role': 'driver'}
+        rc = {'role': 'driver'}
+        callees = [x['to'] for x in proj['procs'][s]['calls']]
+        if callees and g.flip('seedlist', 1, 4):
+            kind = g.pick('seedlistkind', ['disable', 'block', 'ignore'])
+            unq = [x['to'] for x in proj['procs'][s]['calls'] if x['via'] == 'unqual']
+            tgt = g.pick('stgtunq', unq) if unq and g.flip('spreferunq', 1, 2) else g.pick('stgt', callees)
+            rc[kind] = [entry_spelling(g, proj, tgt, kind, patterns)]
+        routines[qualify(proj, s, g.flip('seedq', 1, 4))] = rc
     for n in g.sample('cfgitems', cand, min(len(cand), g.randint('ncfg', 0, 3))):
         c = {}
         kind = g.weighted('cfgkind', [('role', 2), ('noexpand', 2), ('ignore', 3), ('block', 3), ('disable', 2),
@@ -174,8 +184,9 @@ def gen_config(g, proj, tier):
         elif kind == 'mode':
             c['mode'] = 'other'
         elif callees:
-            tgt = g.pick('tgt', callees)
-            c[kind] = [qualify(proj, tgt, g.flip('tq', 1, 3))]
+            unq = [x['to'] for x in proj['procs'][n]['calls'] if x['via'] == 'unqual']
+            tgt = g.pick('tgtunq', unq) if unq and g.flip('preferunq', 1, 2) else g.pick('tgt', callees)
+            c[kind] = [entry_spelling(g, proj, tgt, kind, patterns)]
         if c:
             routines[qualify(proj, n, g.flip('nq', 1, 4))] = c
     return {'seeds': [qualify(proj, s, False) if g.flip('sq', 3, 4) else qualify(proj, s, True) for s in seeds],
@@ -319,10 +330,42 @@ def matches(name, keys):
     return any(k.lower() in (name, local) for k in keys or ())
 
 
-def matches_with_parents(name, keys):
+def matches_with_parents(name, keys, patterns=True):
+    """
+    disable/block lists: fully qualified name, local name or scope name, each against fnmatch-style patterns;
+    ignore lists (patterns=False): the same forms, literally
+    """
+    import fnmatch  # pylint: disable=import-outside-toplevel
     name = name.lower()
     scope = name.split('#', 1)[0] if '#' in name else ''
-    return matches(name, keys) or (bool(scope) and any(k.lower() == scope for k in keys or ()))
+    if matches(name, keys) or (bool(scope) and any(k.lower() == scope for k in keys or ())):
+        return True
+    if not patterns:
+        return False
+    local = name.split('#', 1)[1] if '#' in name else name
+    forms = {name, local} | ({scope} if scope else set())
+    return any(fnmatch.fnmatchcase(f, k.lower()) for k in keys or () for f in forms)
+
+
+def entry_spelling(g, proj, tgt, kind, patterns=False):
+    """one of the documented spellings of a disable/block/ignore entry that names procedure tgt"""
+    m = proj['procs'][tgt]['mod']
+    nm = ename(proj, tgt)
+    forms = ['plain', 'plain', 'qualified']
+    if kind != 'ignore' and patterns:
+        forms += ['prefix*', 'scoped-prefix*', 'qmark', 'upper*']
+    f = g.pick('entryform', forms)
+    if f == 'qualified' and m:
+        return f'{m}#{nm}'
+    if f == 'prefix*':
+        return nm[:max(2, len(nm) - 1)] + '*'
+    if f == 'scoped-prefix*' and m:
+        return f'{m}#{nm[:max(2, len(nm) - 2)]}*'
+    if f == 'qmark':
+        return nm[:-1] + '?'
+    if f == 'upper*':
+        return nm[:max(2, len(nm) - 1)].upper() + '*'
+    return nm
 
 
 def item_config(cfg, name):
@@ -410,7 +453,7 @@ def reference_graph(proj, cfg):
                 continue
             if child == n:
                 continue
-            edges[(n, child)] = bool(matches_with_parents(child, c.get('ignore')))
+            edges[(n, child)] = bool(matches_with_parents(child, c.get('ignore'), patterns=False))
             if child not in nodes:
                 nodes[child] = kind
                 queue.append(child)
